@@ -33,7 +33,13 @@ def c_header(fields, length, swap):
             self.comb += hdr.encode(self.src, self.word)
             self.comb += hdr.decode(self.word_in, self.dst)
             self.comb += hdr.decode(self.word, self.rt)
-    d = mk(Top); h = HwCheck(f"Header(len={length},swap={swap},fields={''.join(fields)})", d, [getattr(d.src, n) for n in fields] + [d.word_in])
+    try:
+        d = mk(Top); h = HwCheck(f"Header(len={length},swap={swap},fields={''.join(fields)})", d, [getattr(d.src, n) for n in fields] + [d.word_in])
+    except Exception as e:
+        # Header.encode/decode (or a helper they use, e.g. reverse_bytes) raised / built an ill-formed expression for a LEGAL header definition:
+        # that is a verdict about the code under contract, not a harness fault
+        return dict(results=[res("ens.layout", "ensures", VIOLATED, 0, "executed", info=f"Header(len={length}, swap={swap}) with fields {sorted(fields)}: encode/decode could not be elaborated: {type(e).__name__}: {e}")],
+                    functions=["litex.soc.interconnect.packet.Header.encode", "litex.soc.interconnect.packet.Header.decode"], samples=[])
     bits = spec_header_bits(fields, length, swap, lambda n: h.v(getattr(d.src, n)))
     h.ensure("ens.layout", z3.And(*[z3.Extract(p, p, h.v(d.word)) == t for p, t in bits.items()]))
     h.ensure("ens.unused0", z3.And(*[z3.Extract(p, p, h.v(d.word)) == K(0, 1) for p in range(length * 8) if p not in bits]))
@@ -457,8 +463,10 @@ def c_packetfifo(payload_depth=4, param_depth=2, buffered=False):
     h.cosim_cycles = 16
     return h
 
+FIELDS_SUB = {"a": HeaderField(0, 0, 5), "b": HeaderField(1, 1, 6), "c": HeaderField(2, 0, 7), "d": HeaderField(3, 2, 3), "e": HeaderField(4, 0, 16)}     # fields narrower than a byte (5, 6, 7, 3 bits) beside a two-byte field
 def all_cases(tier):
-    cs = [("Header(8B,swap)", c_header, FIELDS, 8, True), ("Header(8B,noswap)", c_header, FIELDS, 8, False), ("Header(3B,swap)", c_header, FIELDS3, 3, True),
+    cs = [("Header(6B,sub-byte fields,swap)", c_header, FIELDS_SUB, 6, True), ("Header(6B,sub-byte fields,noswap)", c_header, FIELDS_SUB, 6, False),
+          ("Header(8B,swap)", c_header, FIELDS, 8, True), ("Header(8B,noswap)", c_header, FIELDS, 8, False), ("Header(3B,swap)", c_header, FIELDS3, 3, True),
           ("Header(12B,odd,swap)", c_header, FIELDS_ODD, 12, True), ("Header(12B,odd,noswap)", c_header, FIELDS_ODD, 12, False),
           ("Packetizer(dw=32,8B)", c_packetizer, 32, FIELDS, 8), ("Packetizer(dw=64,8B)", c_packetizer, 64, FIELDS, 8), ("Packetizer(dw=16,8B)", c_packetizer, 16, FIELDS, 8),
           ("Packetizer(dw=8,3B)", c_packetizer, 8, FIELDS3, 3),
